@@ -11,7 +11,7 @@ class C09(RecorderProp):
             'replays of present and missing ids, replays failing with a missing key or whose function raises) followed by a '
             'probe run; the probe is also executed on a FRESH recorder over the same cassette, PRNG and clock position; '
             'idle flags read after every run; non-trivial = history of >= 2 runs; distinct = distinct canonical case')
-    OPTS = dict(ALL_OPTS, runs=(2, 6), play_ratio=0.45, same_script=0.5, cassettes=['memory', 'memory', 'file'])
+    OPTS = dict(ALL_OPTS, runs=(2, 6), play_ratio=0.45, same_script=0.5, cassettes=['memory', 'memory', 'file'], foreign=True)
     N = {'quick': 2000, 'thorough': 20000}
 
     def run_impl(self, case):
